@@ -11,6 +11,7 @@ import Driver.Wire
 import Driver.Compress
 import Driver.Hardlink
 import Driver.Verify
+import Driver.Filter
 
 namespace Driver
 
@@ -26,6 +27,7 @@ def dispatch (toks : List String) : String :=
       else if area == "compress" || area == "sparse" then Driver.Compress.handle toks
       else if area == "hl" then Driver.Hardlink.handle toks
       else if area == "verify" then Driver.Verify.handle toks
+      else if area == "glob" || area == "filter" then Driver.Filter.handle toks
       else none
     r.getD "bad-op"
 
